@@ -594,8 +594,12 @@ def main():
     for depth in range(1, 6):
         for dt in L.NUMERIC + ["daqmx"]:
             cases.append(rcase(rng, dt, depth))
+    # long definitions: scale indices with two digits (with and without NI_Number_Of_Scales)
+    for depth in (10, 11, 12, 13):
+        for _ in range(4):
+            cases.append(rcase(rng, None, depth))
     while len(cases) < n:
-        cases.append(rcase(rng))
+        cases.append(rcase(rng, None, rng.randint(10, 14) if rng.random() < 0.03 else None))
     terms = []
     for case in cases:
         t = run_case(run, case, stats)
